@@ -1,5 +1,6 @@
 import SpdxVerif.Props.C08
 import SpdxVerif.Props.Consts
+import SpdxVerif.Props.C08Text
 #print axioms Spdx.C08.only_shares_group
 #print axioms Spdx.C08.no_active_base_of_orLater
 #print axioms Spdx.C08.normalize_only
@@ -8,3 +9,15 @@ import SpdxVerif.Props.Consts
 #print axioms Spdx.C08.pos_orLater
 #print axioms Spdx.ConstsPin.normalizeLicense_literals
 #print axioms Spdx.ConstsPin.simplifyLicense_literals
+#print axioms Spdx.C08.plus_orLater_same_tree
+#print axioms Spdx.C08.plus_orLater_interchangeable
+#print axioms Spdx.C08.plus_orLater_allowed_entry
+#print axioms Spdx.C08.only_interchangeable
+#print axioms Spdx.C08.only_interchangeable_head
+#print axioms Spdx.C08.only_allowed_entry
+#print axioms Spdx.C08.active_all_spellings
+#print axioms Spdx.C08.active_suffixed_clean
+#print axioms Spdx.orLater_bases_free
+#print axioms Spdx.only_bases_ok
+#print axioms Spdx.D_swap
+#print axioms Spdx.matchLeaf_idEquiv
